@@ -18,6 +18,9 @@ type DecoSpec struct {
 	// FromNoBox: the custom decoration starts from NoBox() (which carries the unexported boxless flag) instead of
 	// an empty Decoration: after Populate it draws no rule lines but has dividers like any other
 	FromNoBox bool `json:"from_nobox,omitempty"`
+	// Literal: the custom decoration is written out completely - every glyph field the Decoration type documents is given a
+	// value (from Custom, else a fixed one) - and used as it is, without Populate: a complete decoration needs no filling in
+	Literal bool `json:"literal,omitempty"`
 }
 
 var BuiltinDecos = []string{
@@ -75,6 +78,14 @@ func (d DecoSpec) Make() (deco decoration.Decoration, boxless bool) {
 				f.SetString(d.Custom[k])
 			}
 		}
+		if d.Literal && !d.FromNoBox {
+			for i, name := range DecoFields {
+				if f := v.FieldByName(name); f.IsValid() && f.CanSet() && f.String() == "" {
+					f.SetString(Glyphs[i%18]) // one of the ASCII glyphs
+				}
+			}
+			return deco, false
+		}
 		deco.Populate()
 		return deco, boxless
 	}
@@ -108,7 +119,8 @@ func DecoGen() *rapid.Generator[DecoSpec] {
 			for i, f := range fields {
 				m[f] = glyphs[i%len(glyphs)]
 			}
-			return DecoSpec{Custom: m, FromNoBox: rapid.IntRange(0, 4).Draw(t, "from-nobox") == 0}
+			fromNoBox := rapid.IntRange(0, 4).Draw(t, "from-nobox") == 0
+			return DecoSpec{Custom: m, FromNoBox: fromNoBox, Literal: !fromNoBox && rapid.IntRange(0, 3).Draw(t, "literal") == 0}
 		}
 		return DecoSpec{Name: rapid.SampledFrom(BuiltinDecos).Draw(t, "name"), ByCtor: rapid.Bool().Draw(t, "ctor")}
 	})
